@@ -867,3 +867,7 @@ mod tests {
         fittable(KMeans::params_with_rng(1, ThreadRng::default()));
     }
 }
+
+#[cfg(linfa_verif)]
+#[path = "../verif_hooks_c09.rs"]
+pub mod verif_hooks_c09;
